@@ -7,6 +7,14 @@ CHECKS = [
      "text": "Completeness of the modelled schemes is a Coq theorem for every field, trapdoor, degree, polynomial, point, hiding bound and RNG tape; "
              "the model is compared with the library on generated honest transcripts (commitments, randomness, proofs, decisions, RNG draws).",
      "note": COMMON_NOTE + " Currently modelled for C01: KZG10 (commit/open/check); other schemes are being added."},
+    {"property_id": "C16",
+     "text": "Coq theorems (unbounded): every LinearCombination operator and every operator sequence acts on values as the corresponding arithmetic; "
+             "evaluate_query_set maps exactly the queried (label, point) keys to the polynomial's value; SuccinctCheckPolynomial::evaluate equals Horner "
+             "evaluation of compute_coeffs for every challenge list and point, with 2^k coefficients and challenge j at position 2^(k-j). "
+             "The extracted model is compared term by term with the library's operators, evaluate_query_set and SuccinctCheckPolynomial.",
+     "note": COMMON_NOTE + " Modelled: data_structures.rs LinearCombination operators (terms as ordered list), lib.rs evaluate_query_set (BTreeMap as ordered "
+             "association list), ipa_pc SuccinctCheckPolynomial::{evaluate,compute_coeffs}. Not modelled: string labels (numeric labels printed fixed-width)."},
 ]
 _PENDING = "check not built yet in this round (model and correspondence under construction; see DESIGN.md section 7)"
-NOT_APPLICABLE = [{"property_id": "C%02d" % i, "reason": _PENDING} for i in range(2, 20)]
+_CLAIMED = {c["property_id"] for c in CHECKS}
+NOT_APPLICABLE = [{"property_id": "C%02d" % i, "reason": _PENDING} for i in range(1, 20) if "C%02d" % i not in _CLAIMED]
